@@ -150,6 +150,9 @@ def configs(tier, seed):
     for fr in (1.0, 0.5, -2.5): cf.append((13, [8], [fr], [], 11, all_splits(11, three=False) + [(3, 9), (8, 9)], False))
     for (len_, kind, dps) in [(2, 19, [0.05, 1.0]), (2, 19, [0.05, 0.9]), (3, 20, [0.5, 1.0]), (2, 22, [0.95, 10.0]), (2, 22, [1.0, 0.5])]:
         cf.append((kind, [len_], dps, [], 4, all_splits(4), False))
+    # coefficients locked after 2 samples (non-zero by then): the frozen filter must still see its whole input history across frames
+    for (len_, kind, dps) in [(2, 19, [0.05, 1.0]), (3, 19, [0.1, 0.9]), (3, 20, [0.5, 1.0]), (2, 22, [0.95, 10.0])]:
+        cf.append((kind, [len_, 2], dps, [], 6, all_splits(6), False))
     cf.append((21, [2, 0], [0.05, 1.0], [], 3, all_splits(3), False)); cf.append((21, [2, 1], [0.5, 0.95], [], 3, all_splits(3), False)); cf.append((23, [2], [0.9, 2.0], [], 3, all_splits(3), False))
     # forking processors: short streams
     fs = [(1, 2), (1, 1), (2, 2), (1, 3), (2, 3)] if q else None
